@@ -109,6 +109,9 @@ func (m *Manager) connect(recursed bool) (err error) {
 			activeMu.Lock()
 			active = false
 			activeMu.Unlock()
+			// Whatever ended the use of this connection (a frame that cannot be decoded, a newer
+			// connection taking its place): it is not left open behind the manager's back.
+			go _eio.Close()
 		})
 	}
 	activeMu.Unlock()
